@@ -32,10 +32,12 @@ import DefconModel.ReprCore
 namespace DefconModel
 namespace Repr
 
+/-- glyphs are identified by their current name (the layer is a name-keyed dict, as `Layer._glyphs`);
+contours and components by an id the harness gives the Python object -/
 inductive Obj where
   | contour (id : Nat)
   | comp (id : Nat)
-  | glyph (id : Nat)
+  | glyph (name : String)
   | groups
 deriving DecidableEq, Repr, Inhabited
 
@@ -49,9 +51,9 @@ def Obj.cls : Obj → String
 inductive Watch where
   /-- none (baseGlyph is None or the component has no dispatcher) -/
   | none
-  /-- `_beginBaseGlyphObservations`: on that glyph object for NameChanged / ContoursChanged /
-  ComponentsChanged and on the layer for GlyphWillBeDeleted -/
-  | glyph (gid : Nat)
+  /-- `_beginBaseGlyphObservations`: on the glyph object currently named `baseGlyph` (NameChanged /
+  ContoursChanged / ComponentsChanged) and on the layer for GlyphWillBeDeleted -/
+  | base
   /-- `_beginLayerObservations`: on the layer for GlyphNameChanged / GlyphAdded -/
   | layer
 deriving DecidableEq, Repr, Inhabited
@@ -75,24 +77,29 @@ structure CompS where
   watch : Watch
 deriving DecidableEq, Repr, Inhabited
 
-structure GlyphS where
-  id : Nat
-  name : String
+structure GlyphS (V : Type) where
+  /-- version of the glyph's own attributes (name, width, …) -/
   attr : Nat
   contours : List ContourS
   comps : List CompS
-deriving DecidableEq, Repr, Inhabited
+  cache : Cache V := []
+deriving Inhabited
+
+abbrev Layer (V : Type) := List (String × GlyphS V)
 
 structure World (V : Type) where
   clock : Nat := 1
-  /-- the glyphs of the layer -/
-  glyphs : List GlyphS := []
+  /-- nesting fuel for outlines and notification cascades; never changes -/
+  fuel : Nat := 64
+  glyphs : Layer V := []
   /-- contours / components that belong to no glyph (no dispatcher: nothing is cached) -/
   looseC : List ContourS := []
   looseK : List CompS := []
   groupsVer : Nat := 0
+  gcache : Cache V := []
   /-- `registerRepresentationFactory` calls made so far: (class, name, destructive spec) -/
   regs : List (String × String × Destr) := []
+  /-- caches of contours and components, by id -/
   caches : List (Obj × Cache V) := []
 deriving Inhabited
 
@@ -115,92 +122,119 @@ structure Params (V : Type) where
   /-- `Contour.move`: representation name, cached value, (dx, dy) ↦ patched value -/
   patch : String → V → Int → Int → V
 
+/-! ### declared mutators: method ↦ the cell it rewrites (the dependency matrix, mutator side) -/
+
+inductive CCell where | pts | attr | both
+deriving DecidableEq, Repr, Inhabited
+
+def contourMutators : List (String × CCell) :=
+  [("appendPoint", .pts), ("addPoint", .pts), ("insertPoint", .pts), ("removePoint", .pts),
+   ("setStartPoint", .pts), ("clear", .pts), ("reverse", .pts), ("_set_clockwise", .pts),
+   ("removeSegment", .pts), ("splitAndInsertPointAtSegmentAndT", .pts),
+   ("setDataFromSerialization", .both), ("_set_identifier", .attr), ("generateIdentifier", .attr),
+   ("generateIdentifierForPoint", .attr), ("_set_dirty", .attr)]
+
+def compMutators : List (String × CCell) :=
+  [("_set_transformation", .pts), ("move", .pts), ("_set_identifier", .attr),
+   ("generateIdentifier", .attr), ("_set_dirty", .attr)]
+
+def glyphMutators : List String :=
+  ["_set_width", "_set_height", "_set_note", "_set_unicodes", "_set_dirty", "clearImage",
+   "copyDataFromGlyph", "decomposeComponent", "decomposeAllComponents"]
+
+def groupsMutators : List String :=
+  ["__setitem__", "__delitem__", "clear", "update", "pop", "popitem", "setdefault", "__ior__"]
+
+/-- built-in factories that take no keyword arguments (a request with some is a TypeError) -/
+def acceptsKw (name : String) : Bool :=
+  name = "defcon.contour.flattened" || !name.startsWith "defcon."
+
 section Structure
 variable {V : Type}
 
-def glyphNamed (gs : List GlyphS) (name : String) : Option GlyphS :=
-  gs.find? fun g => g.name = name
+def hasContour (cid : Nat) (g : GlyphS V) : Bool := g.contours.any fun c => c.id = cid
+def hasComp (kid : Nat) (g : GlyphS V) : Bool := g.comps.any fun k => k.id = kid
 
-def glyphById (gs : List GlyphS) (gid : Nat) : Option GlyphS :=
-  gs.find? fun g => g.id = gid
+def hostOfContour (gs : Layer V) (cid : Nat) : Option (String × GlyphS V) :=
+  gs.find? fun p => hasContour cid p.2
 
-def hostOfContour (gs : List GlyphS) (cid : Nat) : Option GlyphS :=
-  gs.find? fun g => g.contours.any fun c => c.id = cid
+def hostOfComp (gs : Layer V) (kid : Nat) : Option (String × GlyphS V) :=
+  gs.find? fun p => hasComp kid p.2
 
-def hostOfComp (gs : List GlyphS) (kid : Nat) : Option GlyphS :=
-  gs.find? fun g => g.comps.any fun k => k.id = kid
-
-def contourIn (g : GlyphS) (cid : Nat) : Option ContourS := g.contours.find? fun c => c.id = cid
-def compIn (g : GlyphS) (kid : Nat) : Option CompS := g.comps.find? fun k => k.id = kid
+def contourIn (g : GlyphS V) (cid : Nat) : Option ContourS := g.contours.find? fun c => c.id = cid
+def compIn (g : GlyphS V) (kid : Nat) : Option CompS := g.comps.find? fun k => k.id = kid
 
 def contourToks (c : ContourS) : List Tok := [.c c.ver c.ox c.oy]
 
+def compHead (rec : String → List Tok) (k : CompS) : List Tok :=
+  Tok.k k.data :: (match k.base with
+    | none => [Tok.nobase]
+    | some b => rec b)
+
 /-- a glyph's outline as a pen sees it: its contours, then every component with the outline
 of its base glyph (looked up *by name* in the layer, as `layer[baseGlyph]` does) -/
-def bodyWith (rec : String → List Tok) (g : GlyphS) : List Tok :=
-  Tok.gopen :: (g.contours.flatMap contourToks ++
-    g.comps.flatMap fun k => Tok.k k.data :: (match k.base with
-      | none => [Tok.nobase]
-      | some b => rec b)) ++ [Tok.gclose]
+def bodyWith (rec : String → List Tok) (g : GlyphS V) : List Tok :=
+  Tok.gopen :: (g.contours.flatMap contourToks ++ g.comps.flatMap (compHead rec)) ++ [Tok.gclose]
 
-def outline : Nat → List GlyphS → String → List Tok
+def outline : Nat → Layer V → String → List Tok
   | 0, _, _ => [.cut]
   | n + 1, gs, nm =>
-    match glyphNamed gs nm with
+    match AL.get? gs nm with
     | none => [.missing]
     | some g => bodyWith (outline n gs) g
 
-def glyphOutline (n : Nat) (gs : List GlyphS) (g : GlyphS) : List Tok := bodyWith (outline n gs) g
+def glyphOutline (n : Nat) (gs : Layer V) (g : GlyphS V) : List Tok := bodyWith (outline n gs) g
 
-def compToks (n : Nat) (gs : List GlyphS) (k : CompS) : List Tok :=
-  Tok.k k.data :: (match k.base with
-    | none => [Tok.nobase]
-    | some b => outline n gs b)
-
-/-- nesting fuel: more than the number of glyphs (enough for every acyclic component graph) -/
-def fuelOf (gs : List GlyphS) : Nat := gs.length + 1
+def compToks (n : Nat) (gs : Layer V) (k : CompS) : List Tok := compHead (outline n gs) k
 
 def isBuiltin (T : Tables) (cls name : String) : Bool :=
   (T.factoriesOf cls).any fun p => p.1 = name
 
-/-- what the factory registered under `name` reads of object `o`.
-Built-in factories: contour → its points; component → (baseGlyph, transformation) and the base
-glyph's outline; glyph (area) → its outline.  Factories registered with default settings
-(destroyed by `<Class>.Changed`): contour → points and attributes; component → its own data and
-attributes (NOT the base glyph: `Component.Changed` is not posted for base-glyph edits); glyph →
-attributes, outline, and the attributes of its contours and components.  Groups: the dict. -/
-def viewOf (T : Tables) (w : World V) (o : Obj) (name : String) : Option (List Tok) :=
+def contourView (T : Tables) (name : String) (c : ContourS) : List Tok :=
+  if isBuiltin T "Contour" name then contourToks c else contourToks c ++ [.ca c.attr]
+
+def compView (T : Tables) (n : Nat) (gs : Layer V) (name : String) (k : CompS) : List Tok :=
+  if isBuiltin T "Component" name then compToks n gs k else [.k k.data, .ka k.attr]
+
+def glyphView (T : Tables) (n : Nat) (gs : Layer V) (name : String) (g : GlyphS V) : List Tok :=
+  if isBuiltin T "Glyph" name then glyphOutline n gs g
+  else Tok.g g.attr :: glyphOutline n gs g
+         ++ g.contours.map (fun c => Tok.ca c.attr) ++ g.comps.map (fun k => Tok.ka k.attr)
+
+def findContour (w : World V) (cid : Nat) : Option ContourS :=
+  match hostOfContour w.glyphs cid with
+  | some p => contourIn p.2 cid
+  | none => w.looseC.find? fun c => c.id = cid
+
+def findComp (w : World V) (kid : Nat) : Option CompS :=
+  match hostOfComp w.glyphs kid with
+  | some p => compIn p.2 kid
+  | none => w.looseK.find? fun k => k.id = kid
+
+/-- what the factory registered under `name` reads of object `o` (the dependency matrix,
+representation side).  Built-in factories: contour → its points; component → (baseGlyph,
+transformation) and the base glyph's outline; glyph (area) → its outline.  Factories registered with
+default settings (destroyed by `<Class>.Changed`): contour → points and attributes; component → its
+own data and attributes (NOT the base glyph: `Component.Changed` is not posted for base-glyph edits);
+glyph → attributes, outline, and the attributes of its contours and components.  Groups: the dict. -/
+def viewOf (T : Tables) (w : World V) (o : Obj) (name : String) : List Tok :=
   match o with
-  | .contour cid =>
-    let c? := match hostOfContour w.glyphs cid with
-      | some g => contourIn g cid
-      | none => w.looseC.find? fun c => c.id = cid
-    c?.map fun c => if isBuiltin T "Contour" name then contourToks c else contourToks c ++ [.ca c.attr]
-  | .comp kid =>
-    let k? := match hostOfComp w.glyphs kid with
-      | some g => compIn g kid
-      | none => w.looseK.find? fun k => k.id = kid
-    k?.map fun k =>
-      if isBuiltin T "Component" name then compToks (fuelOf w.glyphs) w.glyphs k
-      else [.k k.data, .ka k.attr]
-  | .glyph gid =>
-    (glyphById w.glyphs gid).map fun g =>
-      if isBuiltin T "Glyph" name then glyphOutline (fuelOf w.glyphs) w.glyphs g
-      else Tok.g g.attr :: glyphOutline (fuelOf w.glyphs) w.glyphs g
-             ++ g.contours.map (fun c => Tok.ca c.attr) ++ g.comps.map (fun k => Tok.ka k.attr)
-  | .groups => some [.grp w.groupsVer]
+  | .contour cid => ((findContour w cid).map (contourView T name)).getD []
+  | .comp kid => ((findComp w kid).map (compView T w.fuel w.glyphs name)).getD []
+  | .glyph nm => ((AL.get? w.glyphs nm).map (glyphView T w.fuel w.glyphs name)).getD []
+  | .groups => [.grp w.groupsVer]
 
 /-- does the object have a dispatcher (is it attached to the font)? -/
 def attached (w : World V) : Obj → Bool
   | .contour cid => (hostOfContour w.glyphs cid).isSome
   | .comp kid => (hostOfComp w.glyphs kid).isSome
-  | .glyph gid => (glyphById w.glyphs gid).isSome
+  | .glyph nm => AL.contains w.glyphs nm
   | .groups => true
 
 def exists? (w : World V) : Obj → Bool
   | .contour cid => (hostOfContour w.glyphs cid).isSome || w.looseC.any fun c => c.id = cid
   | .comp kid => (hostOfComp w.glyphs kid).isSome || w.looseK.any fun k => k.id = kid
-  | .glyph gid => (glyphById w.glyphs gid).isSome
+  | .glyph nm => AL.contains w.glyphs nm
   | .groups => true
 
 end Structure
@@ -210,19 +244,34 @@ end Structure
 section Caches
 variable {V : Type}
 
-def cacheOf (w : World V) (o : Obj) : Cache V := (AL.get? w.caches o).getD []
+def cacheOf (w : World V) (o : Obj) : Cache V :=
+  match o with
+  | .glyph nm => ((AL.get? w.glyphs nm).map fun g => g.cache).getD []
+  | .groups => w.gcache
+  | o => (AL.get? w.caches o).getD []
 
-def setCache (w : World V) (o : Obj) (c : Cache V) : World V := { w with caches := AL.set w.caches o c }
+def setGlyphCache (gs : Layer V) (nm : String) (c : Cache V) : Layer V :=
+  match AL.get? gs nm with
+  | none => gs
+  | some g => AL.set gs nm { g with cache := c }
 
+def setCache (w : World V) (o : Obj) (c : Cache V) : World V :=
+  match o with
+  | .glyph nm => { w with glyphs := setGlyphCache w.glyphs nm c }
+  | .groups => { w with gcache := c }
+  | o => { w with caches := AL.set w.caches o c }
+
+/-- `endSelfNotificationObservation` of a contour / component: the cache is dropped -/
 def dropCache (w : World V) (o : Obj) : World V := { w with caches := AL.erase w.caches o }
 
 /-- `representationFactories` of the object's class at this moment: (name, destructive spec) -/
-def facsOf (T : Tables) (w : World V) (cls : String) : List (String × Destr) :=
-  T.factoriesOf cls ++ w.regs.filterMap fun (c, n, d) => if c = cls then some (n, d) else none
+def facsOf (T : Tables) (regs : List (String × String × Destr)) (cls : String) : List (String × Destr) :=
+  T.factoriesOf cls ++ regs.filterMap fun (r : String × String × Destr) =>
+    if r.1 = cls then some (r.2.1, r.2.2) else none
 
 /-- `selfNotificationCallback` for one delivered notification -/
 def evictObj (T : Tables) (w : World V) (o : Obj) (notif : String) : World V :=
-  setCache w o (Cache.evict (facsOf T w o.cls) (cacheOf w o) notif)
+  setCache w o (Cache.evict (facsOf T w.regs o.cls) (cacheOf w o) notif)
 
 def applyDeliv (T : Tables) (w : World V) (ds : List (Obj × String)) : World V :=
   ds.foldl (fun w (d : Obj × String) => evictObj T w d.1 d.2) w
@@ -238,46 +287,46 @@ variable {V : Type}
 def relays (ns : List String) : Bool :=
   ns.contains "Glyph.ContoursChanged" || ns.contains "Glyph.ComponentsChanged"
 
-/-- (host glyph id, component id) of every component registered on glyph object `gid` -/
-def watchers (gs : List GlyphS) (gid : Nat) : List (Nat × Nat) :=
-  gs.flatMap fun h => h.comps.filterMap fun k => if k.watch = Watch.glyph gid then some (h.id, k.id) else none
+def watchesBase (a : String) (k : CompS) : Bool := k.watch = Watch.base && k.base = some a
 
-/-- a component (in glyph `hid`) has posted `cn`: itself, then its glyph's two callbacks
+/-- (host glyph name, component id) of every component registered on the glyph named `a` -/
+def watchers (gs : Layer V) (a : String) : List (String × Nat) :=
+  gs.flatMap fun p => (p.2.comps.filter (watchesBase a)).map fun k => (p.1, k.id)
+
+/-- a component (in glyph `h`) has posted `cn`: itself, then its glyph's two callbacks
 (`_componentChanged`, `_componentBaseGlyphDataChanged`) -/
-def compRelay (rec : Nat → List String → List (Obj × String)) (T : Tables) (hid kid : Nat)
+def compRelay (rec : String → List String → List (Obj × String)) (T : Tables) (h : String) (kid : Nat)
     (cn : List String) : List (Obj × String) :=
   cn.map (fun x => (Obj.comp kid, x)) ++
-  (if cn.contains "Component.Changed" then rec hid (T.postsOf "Glyph" "_componentChanged") else []) ++
+  (if cn.contains "Component.Changed" then rec h (T.postsOf "Glyph" "_componentChanged") else []) ++
   (if cn.contains "Component.BaseGlyphDataChanged" then
-      rec hid (T.postsOf "Glyph" "_componentBaseGlyphDataChanged") else [])
+      rec h (T.postsOf "Glyph" "_componentBaseGlyphDataChanged") else [])
 
-/-- glyph `gid` has posted `ns`: itself, then (for ContoursChanged / ComponentsChanged) every
+/-- the glyph named `a` has posted `ns`: itself, then (for ContoursChanged / ComponentsChanged) every
 component registered on it runs `baseGlyphDataChangedNotificationCallback`, and so on upwards -/
-def glyphDeliv : Nat → Tables → List GlyphS → Nat → List String → List (Obj × String)
+def glyphDeliv : Nat → Tables → Layer V → String → List String → List (Obj × String)
   | 0, _, _, _, _ => []
-  | n + 1, T, gs, gid, ns =>
-    ns.map (fun x => (Obj.glyph gid, x)) ++
+  | n + 1, T, gs, a, ns =>
+    ns.map (fun x => (Obj.glyph a, x)) ++
     (if relays ns then
-      (watchers gs gid).flatMap fun p =>
+      (watchers gs a).flatMap fun p =>
         compRelay (glyphDeliv n T gs) T p.1 p.2
           (T.postsOf "Component" "baseGlyphDataChangedNotificationCallback")
      else [])
 
-def compDeliv (T : Tables) (gs : List GlyphS) (hid kid : Nat) (cn : List String) : List (Obj × String) :=
-  compRelay (glyphDeliv (fuelOf gs) T gs) T hid kid cn
+def compDeliv (n : Nat) (T : Tables) (gs : Layer V) (h : String) (kid : Nat) (cn : List String) :
+    List (Obj × String) :=
+  compRelay (glyphDeliv n T gs) T h kid cn
 
-/-- a contour (in glyph `hid`) has posted `ns`: itself, then `Glyph._contourChanged` -/
-def contourDeliv (T : Tables) (gs : List GlyphS) (hid cid : Nat) (ns : List String) : List (Obj × String) :=
+/-- a contour (in glyph `h`) has posted `ns`: itself, then `Glyph._contourChanged` -/
+def contourDeliv (n : Nat) (T : Tables) (gs : Layer V) (h : String) (cid : Nat) (ns : List String) :
+    List (Obj × String) :=
   ns.map (fun x => (Obj.contour cid, x)) ++
-  (if ns.contains "Contour.Changed" then
-      glyphDeliv (fuelOf gs) T gs hid (T.postsOf "Glyph" "_contourChanged") else [])
+  (if ns.contains "Contour.Changed" then glyphDeliv n T gs h (T.postsOf "Glyph" "_contourChanged") else [])
 
 end Routes
 
 /-! ### operations -/
-
-inductive CCell where | pts | attr
-deriving DecidableEq, Repr, Inhabited
 
 inductive Op where
   /-- `registerRepresentationFactory(cls, name, factory)` (default destructive set) -/
@@ -291,22 +340,22 @@ inductive Op where
   /-- a new contour / component that belongs to no glyph -/
   | mkContour (cid : Nat)
   | mkComp (kid : Nat) (base : Option String)
-  /-- an effective call of Contour method `meth` that rewrites the point list / an attribute -/
-  | cmut (cid : Nat) (meth : String) (cell : CCell)
+  /-- an effective call of the declared Contour mutator `meth` -/
+  | cmut (cid : Nat) (meth : String)
   | cmove (cid : Nat) (dx dy : Int)
-  /-- an effective call of Component method `meth` (transformation, move: `data`; identifier: `attr`) -/
-  | kmut (kid : Nat) (meth : String) (cell : CCell)
+  /-- an effective call of the declared Component mutator `meth` -/
+  | kmut (kid : Nat) (meth : String)
   | ksetBase (kid : Nat) (base : Option String)
-  /-- an effective call of a Glyph attribute mutator (name excluded) -/
-  | gmut (gid : Nat) (meth : String)
-  | insContour (gid cid idx : Nat)
-  | remContour (gid cid : Nat)
-  | insComp (gid kid idx : Nat)
-  | remComp (gid kid : Nat)
-  | newGlyph (name : String) (gid : Nat)
+  /-- an effective call of a declared Glyph attribute mutator (the name has its own op) -/
+  | gmut (g : String) (meth : String)
+  | insContour (g : String) (cid idx : Nat)
+  | remContour (g : String) (cid : Nat)
+  | insComp (g : String) (kid idx : Nat)
+  | remComp (g : String) (kid : Nat)
+  | newGlyph (name : String)
   | delGlyph (name : String)
-  | rename (gid : Nat) (newName : String)
-  /-- an effective call of a Groups (dict) mutator -/
+  | rename (old new : String)
+  /-- an effective call of a declared Groups (dict) mutator -/
   | gset (meth : String)
 deriving Repr, Inhabited
 
@@ -324,56 +373,63 @@ variable {V : Type}
 
 def tick (w : World V) : World V := { w with clock := w.clock + 1 }
 
-def mapGlyph (gs : List GlyphS) (gid : Nat) (fn : GlyphS → GlyphS) : List GlyphS :=
-  gs.map fun g => if g.id = gid then fn g else g
+/-- replace the record of glyph `nm` -/
+def updGlyph (gs : Layer V) (nm : String) (fn : GlyphS V → GlyphS V) : Layer V :=
+  match AL.get? gs nm with
+  | none => gs
+  | some g => AL.set gs nm (fn g)
 
-def mapContour (gs : List GlyphS) (cid : Nat) (fn : ContourS → ContourS) : List GlyphS :=
-  gs.map fun g => { g with contours := g.contours.map fun c => if c.id = cid then fn c else c }
+def mapContours (cid : Nat) (fn : ContourS → ContourS) (g : GlyphS V) : GlyphS V :=
+  { g with contours := g.contours.map fun c => if c.id = cid then fn c else c }
 
-def mapComp (gs : List GlyphS) (kid : Nat) (fn : CompS → CompS) : List GlyphS :=
-  gs.map fun g => { g with comps := g.comps.map fun k => if k.id = kid then fn k else k }
+def mapComps (kid : Nat) (fn : CompS → CompS) (g : GlyphS V) : GlyphS V :=
+  { g with comps := g.comps.map fun k => if k.id = kid then fn k else k }
 
 /-- every component of every glyph -/
-def mapAllComps (gs : List GlyphS) (fn : CompS → CompS) : List GlyphS :=
-  gs.map fun g => { g with comps := g.comps.map fn }
+def mapAllComps (gs : Layer V) (fn : CompS → CompS) : Layer V :=
+  gs.map fun p => (p.1, { p.2 with comps := p.2.comps.map fn })
 
 def insertAt {α : Type} (l : List α) (i : Nat) (a : α) : List α := l.take i ++ a :: l.drop i
 
 /-- `beginSelfBaseGlyphNotificationObservation` -/
-def watchFor (gs : List GlyphS) (base : Option String) : Watch :=
+def watchFor (gs : Layer V) (base : Option String) : Watch :=
   match base with
   | none => .none
-  | some b =>
-    match glyphNamed gs b with
-    | some g => .glyph g.id
-    | none => .layer
+  | some b => if AL.contains gs b then .base else .layer
 
 def bumpContour (clock : Nat) (cell : CCell) (c : ContourS) : ContourS :=
   match cell with
   | .pts => { c with ver := clock, ox := 0, oy := 0 }
   | .attr => { c with attr := clock }
+  | .both => { c with ver := clock, ox := 0, oy := 0, attr := clock }
 
 def bumpComp (clock : Nat) (cell : CCell) (k : CompS) : CompS :=
   match cell with
   | .pts => { k with data := clock }
   | .attr => { k with attr := clock }
+  | .both => { k with data := clock, attr := clock }
+
+def shiftContour (dx dy : Int) (c : ContourS) : ContourS := { c with ox := c.ox + dx, oy := c.oy + dy }
 
 def boundsNames : List String := ["defcon.contour.bounds", "defcon.contour.controlPointBounds"]
+
+def patchOne (P : Params V) (dx dy : Int) (c : Cache V) (nm : String) : Cache V :=
+  match c.get? nm none with
+  | some v => c.store nm none (P.patch nm v dx dy)
+  | none => c
+
+def evictUnless (keep : List String) (notif : String) (c : Cache V) (p : String × Destr) : Cache V :=
+  if !keep.contains p.1 && p.2.hit notif then c.destroyName p.1 else c
 
 /-- `Contour.move` on the cache: the two bounds entries (sub-key None) are patched in place;
 every other representation that `Contour.PointsChanged` destroys is destroyed by the method
 itself (its own observation is suppressed while it posts that notification) -/
 def moveCache (P : Params V) (facs : List (String × Destr)) (c : Cache V) (dx dy : Int) : Cache V :=
-  let c1 := boundsNames.foldl (fun c nm =>
-    match c.get? nm none with
-    | some v => c.store nm none (P.patch nm v dx dy)
-    | none => c) c
-  (facs.filter fun p => !boundsNames.contains p.1).foldl
-    (fun c p => if p.2.hit "Contour.PointsChanged" then c.destroyName p.1 else c) c1
+  facs.foldl (evictUnless boundsNames "Contour.PointsChanged") (boundsNames.foldl (patchOne P dx dy) c)
 
 /-- the value the registered factory would return now -/
 def fresh (P : Params V) (T : Tables) (w : World V) (o : Obj) (name : String) (sk : SubKey) : V :=
-  P.f o.cls name ((viewOf T w o name).getD []) sk
+  P.f o.cls name (viewOf T w o name) sk
 
 /-- the group tables the two glyph→group factories request first -/
 def nestedName (name : String) : Option String :=
@@ -385,37 +441,177 @@ def getOne (P : Params V) (T : Tables) (w : World V) (o : Obj) (name : String) (
   let r := (cacheOf w o).lookupOrStore name sk (fresh P T w o name sk)
   (setCache w o r.1, if r.2.2 then 1 else 0)
 
-/-- the component switching callbacks all end with the same post (after the F11 fix);
-which components react is decided by the caller -/
-def switchAndPost (T : Tables) (w : World V) (sel : CompS → Bool) (newWatch : Watch) (cb : String) : World V :=
-  let hits : List (Nat × Nat) := w.glyphs.flatMap fun h =>
-    h.comps.filterMap fun k => if sel k then some (h.id, k.id) else none
-  let gs := mapAllComps w.glyphs fun k => if sel k then { k with watch := newWatch } else k
-  let w1 := { w with glyphs := gs }
-  let ds := hits.flatMap fun p => compDeliv T gs p.1 p.2 (T.postsOf "Component" cb)
-  applyDeliv T w1 ds
+def doGet (P : Params V) (T : Tables) (w : World V) (o : Obj) (name : String) (kw : KwArgs) : World V × Res :=
+  if !exists? w o then (w, .err "unknown-object") else
+  if !(facsOf T w.regs o.cls).any (fun p => p.1 = name) then (w, .err "KeyError") else
+  if !kw.isEmpty && !acceptsKw name then (w, .err "TypeError") else
+  let sk := makeSubKey kw
+  if !attached w o then (w, .got 1) else
+  match (if o = .groups then nestedName name else none) with
+  | some inner =>
+    -- the factory requests `inner` (no keyword arguments) before its own value is stored
+    match (cacheOf w o).get? name sk with
+    | some _ => (w, .got 0)
+    | none =>
+      let r1 := getOne P T w o inner none
+      let r2 := getOne P T r1.1 o name sk
+      (r2.1, .got (r1.2 + r2.2))
+  | none =>
+    let r := getOne P T w o name sk
+    (r.1, .got r.2)
+
+def compSel (sel : CompS → Bool) (p : String × GlyphS V) : List (String × Nat) :=
+  (p.2.comps.filter sel).map fun k => (p.1, k.id)
+
+def setWatch (sel : CompS → Bool) (nw : Watch) (k : CompS) : CompS :=
+  if sel k then { k with watch := nw } else k
+
+/-- the component switching callbacks: the selected components change their registrations and
+(after the F11 fix) post what callback `cb` posts -/
+def switchAndPost (T : Tables) (w : World V) (sel : CompS → Bool) (nw : Watch) (cb : String) : World V :=
+  let gs := mapAllComps w.glyphs (setWatch sel nw)
+  let ds := (w.glyphs.flatMap (compSel sel)).flatMap fun p =>
+    compDeliv w.fuel T gs p.1 p.2 (T.postsOf "Component" cb)
+  applyDeliv T { w with glyphs := gs } ds
+
+def doCmut (T : Tables) (w : World V) (cid : Nat) (meth : String) : World V × Res :=
+  match AL.get? contourMutators meth with
+  | none => (w, .err "unknown-method")
+  | some cell =>
+    match hostOfContour w.glyphs cid with
+    | some h =>
+      let w1 := tick { w with glyphs := updGlyph w.glyphs h.1 (mapContours cid (bumpContour w.clock cell)) }
+      (applyDeliv T w1 (contourDeliv w1.fuel T w1.glyphs h.1 cid (T.postsOf "Contour" meth)), .ok)
+    | none =>
+      if w.looseC.any (fun c => c.id = cid) then
+        (tick { w with looseC := w.looseC.map fun c => if c.id = cid then bumpContour w.clock cell c else c }, .ok)
+      else (w, .err "unknown-object")
+
+def doCmove (P : Params V) (T : Tables) (w : World V) (cid : Nat) (dx dy : Int) : World V × Res :=
+  match hostOfContour w.glyphs cid with
+  | some h =>
+    let w1 := { w with glyphs := updGlyph w.glyphs h.1 (mapContours cid (shiftContour dx dy)) }
+    let w2 := setCache w1 (.contour cid) (moveCache P (facsOf T w1.regs "Contour") (cacheOf w1 (.contour cid)) dx dy)
+    let ns := (T.postsOf "Contour" "move").filter fun n => n != "Contour.PointsChanged"
+    (applyDeliv T w2 (contourDeliv w2.fuel T w2.glyphs h.1 cid ns), .ok)
+  | none =>
+    if w.looseC.any (fun c => c.id = cid) then
+      ({ w with looseC := w.looseC.map fun c => if c.id = cid then shiftContour dx dy c else c }, .ok)
+    else (w, .err "unknown-object")
+
+def doKmut (T : Tables) (w : World V) (kid : Nat) (meth : String) : World V × Res :=
+  match AL.get? compMutators meth with
+  | none => (w, .err "unknown-method")
+  | some cell =>
+    match hostOfComp w.glyphs kid with
+    | some h =>
+      let w1 := tick { w with glyphs := updGlyph w.glyphs h.1 (mapComps kid (bumpComp w.clock cell)) }
+      (applyDeliv T w1 (compDeliv w1.fuel T w1.glyphs h.1 kid (T.postsOf "Component" meth)), .ok)
+    | none =>
+      if w.looseK.any (fun k => k.id = kid) then
+        (tick { w with looseK := w.looseK.map fun k => if k.id = kid then bumpComp w.clock cell k else k }, .ok)
+      else (w, .err "unknown-object")
+
+def setBase (clock : Nat) (base : Option String) (wt : Watch) (k : CompS) : CompS :=
+  { k with base := base, data := clock, watch := wt }
+
+def doKsetBase (T : Tables) (w : World V) (kid : Nat) (base : Option String) : World V × Res :=
+  match hostOfComp w.glyphs kid with
+  | some h =>
+    let w1 := tick { w with glyphs := updGlyph w.glyphs h.1 (mapComps kid (setBase w.clock base (watchFor w.glyphs base))) }
+    (applyDeliv T w1 (compDeliv w1.fuel T w1.glyphs h.1 kid (T.postsOf "Component" "_set_baseGlyph")), .ok)
+  | none =>
+    if w.looseK.any (fun k => k.id = kid) then
+      (tick { w with looseK := w.looseK.map fun k => if k.id = kid then setBase w.clock base .none k else k }, .ok)
+    else (w, .err "unknown-object")
+
+/-- the glyph named `g` has been changed by `fn` and posts what Glyph method `meth` posts -/
+def glyphChange (T : Tables) (w : World V) (g : String) (fn : GlyphS V → GlyphS V) (meth : String) : World V :=
+  let w1 := { w with glyphs := updGlyph w.glyphs g fn }
+  applyDeliv T w1 (glyphDeliv w1.fuel T w1.glyphs g (T.postsOf "Glyph" meth))
+
+def doGmut (T : Tables) (w : World V) (g : String) (meth : String) : World V × Res :=
+  if !glyphMutators.contains meth then (w, .err "unknown-method") else
+  if !AL.contains w.glyphs g then (w, .err "unknown-object") else
+  (glyphChange T (tick w) g (fun r => { r with attr := w.clock }) meth, .ok)
+
+def doInsContour (T : Tables) (w : World V) (g : String) (cid idx : Nat) : World V × Res :=
+  match AL.get? w.glyphs g, w.looseC.find? (fun c => c.id = cid) with
+  | some _, some c =>
+    let w1 := { w with looseC := w.looseC.filter (fun c => c.id != cid) }
+    (glyphChange T w1 g (fun r => { r with contours := insertAt r.contours idx c }) "insertContour", .ok)
+  | _, _ => (w, .err "unknown-object")
+
+def doRemContour (T : Tables) (w : World V) (g : String) (cid : Nat) : World V × Res :=
+  match AL.get? w.glyphs g with
+  | none => (w, .err "unknown-object")
+  | some r =>
+    match contourIn r cid with
+    | none => (w, .err "IndexError")
+    | some c =>
+      let w1 := dropCache { w with looseC := w.looseC ++ [c] } (.contour cid)
+      (glyphChange T w1 g (fun r => { r with contours := r.contours.filter fun c => c.id != cid }) "removeContour", .ok)
+
+def doInsComp (T : Tables) (w : World V) (g : String) (kid idx : Nat) : World V × Res :=
+  match AL.get? w.glyphs g, w.looseK.find? (fun k => k.id = kid) with
+  | some _, some k =>
+    let k1 := { k with watch := watchFor w.glyphs k.base }
+    let w1 := { w with looseK := w.looseK.filter (fun k => k.id != kid) }
+    (glyphChange T w1 g (fun r => { r with comps := insertAt r.comps idx k1 }) "insertComponent", .ok)
+  | _, _ => (w, .err "unknown-object")
+
+def doRemComp (T : Tables) (w : World V) (g : String) (kid : Nat) : World V × Res :=
+  match AL.get? w.glyphs g with
+  | none => (w, .err "unknown-object")
+  | some r =>
+    match compIn r kid with
+    | none => (w, .err "ValueError")
+    | some k =>
+      let w1 := dropCache { w with looseK := w.looseK ++ [{ k with watch := .none }] } (.comp kid)
+      (glyphChange T w1 g (fun r => { r with comps := r.comps.filter fun k => k.id != kid }) "removeComponent", .ok)
+
+def waitsFor (name : String) (k : CompS) : Bool := k.watch = Watch.layer && k.base = some name
+
+def doNewGlyph (T : Tables) (w : World V) (name : String) : World V × Res :=
+  if AL.contains w.glyphs name then (w, .err "exists") else
+  let w1 := tick { w with glyphs := AL.set w.glyphs name { attr := w.clock, contours := [], comps := [] } }
+  -- Layer.GlyphAdded: components waiting on the layer for this name
+  (switchAndPost T w1 (waitsFor name) .base "layerGlyphAddedNotificationCallback", .ok)
+
+def goneObjs (g : GlyphS V) : List Obj :=
+  g.contours.map (fun c => Obj.contour c.id) ++ g.comps.map (fun k => Obj.comp k.id)
+
+def doDelGlyph (T : Tables) (w : World V) (name : String) : World V × Res :=
+  match AL.get? w.glyphs name with
+  | none => (w, .err "KeyError")
+  | some g =>
+    -- Layer.GlyphWillBeDeleted, before anything is removed
+    let w1 := switchAndPost T w (watchesBase name) .layer "layerGlyphWillBeDeletedNotificationCallback"
+    -- _deleteGlyph: the glyph and everything below it stop observing (their caches are dropped)
+    ((goneObjs g).foldl dropCache { w1 with glyphs := AL.erase w1.glyphs name }, .ok)
+
+def doRename (T : Tables) (w : World V) (old new : String) : World V × Res :=
+  match AL.get? w.glyphs old with
+  | none => (w, .err "unknown-object")
+  | some g =>
+    if AL.contains w.glyphs new || old = new then (w, .err "exists") else
+    -- Glyph._set_name, Layer._glyphNameChange: _deleteGlyph(old), _insertGlyph under the new name
+    let w1 := tick { w with glyphs := AL.set (AL.erase w.glyphs old) new { g with attr := w.clock } }
+    -- Layer.GlyphNameChanged: components waiting for `new`
+    let w2 := switchAndPost T w1 (waitsFor new) .base "layerGlyphNameChangedNotificationCallback"
+    -- Glyph.NameChanged: components that were registered on this glyph
+    let w3 := switchAndPost T w2 (watchesBase old) .layer "baseGlyphNameChangedNotificationCallback"
+    (applyDeliv T w3 (glyphDeliv w3.fuel T w3.glyphs new (T.postsOf "Glyph" "_set_name")), .ok)
+
+def doGset (T : Tables) (w : World V) (meth : String) : World V × Res :=
+  if !groupsMutators.contains meth then (w, .err "unknown-method") else
+  let w1 := tick { w with groupsVer := w.clock }
+  (applyDeliv T w1 ((T.postsOf "Groups" meth).map fun n => (Obj.groups, n)), .ok)
 
 def step (P : Params V) (T : Tables) (w : World V) (op : Op) : World V × Res :=
   match op with
-  | .register cls name =>
-    ({ w with regs := w.regs ++ [(cls, name, T.defaultDestr cls)] }, .ok)
-  | .get o name kw =>
-    if !exists? w o then (w, .err "unknown-object") else
-    if !(facsOf T w o.cls).any (fun p => p.1 = name) then (w, .err "KeyError") else
-    let sk := makeSubKey kw
-    if !attached w o then (w, .got 1) else
-    match (if o = .groups then nestedName name else none) with
-    | some inner =>
-      -- the outer dict entry exists before the factory runs; the factory requests `inner`
-      match (cacheOf w o).get? name sk with
-      | some _ => (w, .got 0)
-      | none =>
-        let (w1, r1) := getOne P T w o inner none
-        let (w2, r2) := getOne P T w1 o name sk
-        (w2, .got (r1 + r2))
-    | none =>
-      let (w1, r) := getOne P T w o name sk
-      (w1, .got r)
+  | .register cls name => ({ w with regs := w.regs ++ [(cls, name, T.defaultDestr cls)] }, .ok)
+  | .get o name kw => doGet P T w o name kw
   | .has o name kw => (w, .bool ((cacheOf w o).has name (makeSubKey kw)))
   | .keys o => (w, .keys (cacheOf w o).keys)
   | .destroy o name kw =>
@@ -429,132 +625,28 @@ def step (P : Params V) (T : Tables) (w : World V) (op : Op) : World V × Res :=
   | .mkComp kid base =>
     if exists? w (.comp kid) then (w, .err "exists") else
     (tick { w with looseK := w.looseK ++ [{ id := kid, base := base, data := w.clock, attr := 0, watch := .none }] }, .ok)
-  | .cmut cid meth cell =>
-    match hostOfContour w.glyphs cid with
-    | some h =>
-      let w1 := tick { w with glyphs := mapContour w.glyphs cid (bumpContour w.clock cell) }
-      (applyDeliv T w1 (contourDeliv T w1.glyphs h.id cid (T.postsOf "Contour" meth)), .ok)
-    | none =>
-      if w.looseC.any (fun c => c.id = cid) then
-        (tick { w with looseC := w.looseC.map fun c => if c.id = cid then bumpContour w.clock cell c else c }, .ok)
-      else (w, .err "unknown-object")
-  | .cmove cid dx dy =>
-    let shift := fun (c : ContourS) => { c with ox := c.ox + dx, oy := c.oy + dy }
-    match hostOfContour w.glyphs cid with
-    | some h =>
-      let w1 := { w with glyphs := mapContour w.glyphs cid shift }
-      let w2 := setCache w1 (.contour cid) (moveCache P (facsOf T w1 "Contour") (cacheOf w1 (.contour cid)) dx dy)
-      let ns := (T.postsOf "Contour" "move").filter fun n => n != "Contour.PointsChanged"
-      (applyDeliv T w2 (contourDeliv T w2.glyphs h.id cid ns), .ok)
-    | none =>
-      if w.looseC.any (fun c => c.id = cid) then
-        let w1 := { w with looseC := w.looseC.map fun c => if c.id = cid then shift c else c }
-        (setCache w1 (.contour cid) (moveCache P (facsOf T w1 "Contour") (cacheOf w1 (.contour cid)) dx dy), .ok)
-      else (w, .err "unknown-object")
-  | .kmut kid meth cell =>
-    match hostOfComp w.glyphs kid with
-    | some h =>
-      let w1 := tick { w with glyphs := mapComp w.glyphs kid (bumpComp w.clock cell) }
-      (applyDeliv T w1 (compDeliv T w1.glyphs h.id kid (T.postsOf "Component" meth)), .ok)
-    | none =>
-      if w.looseK.any (fun k => k.id = kid) then
-        (tick { w with looseK := w.looseK.map fun k => if k.id = kid then bumpComp w.clock cell k else k }, .ok)
-      else (w, .err "unknown-object")
-  | .ksetBase kid base =>
-    match hostOfComp w.glyphs kid with
-    | some h =>
-      let wt := watchFor w.glyphs base
-      let w1 := tick { w with glyphs := mapComp w.glyphs kid fun k =>
-        { k with base := base, data := w.clock, watch := wt } }
-      (applyDeliv T w1 (compDeliv T w1.glyphs h.id kid (T.postsOf "Component" "_set_baseGlyph")), .ok)
-    | none =>
-      if w.looseK.any (fun k => k.id = kid) then
-        (tick { w with looseK := w.looseK.map fun k =>
-          if k.id = kid then { k with base := base, data := w.clock } else k }, .ok)
-      else (w, .err "unknown-object")
-  | .gmut gid meth =>
-    match glyphById w.glyphs gid with
-    | none => (w, .err "unknown-object")
-    | some _ =>
-      let w1 := tick { w with glyphs := mapGlyph w.glyphs gid fun g => { g with attr := w.clock } }
-      (applyDeliv T w1 (glyphDeliv (fuelOf w1.glyphs) T w1.glyphs gid (T.postsOf "Glyph" meth)), .ok)
-  | .insContour gid cid idx =>
-    match glyphById w.glyphs gid, w.looseC.find? (fun c => c.id = cid) with
-    | some _, some c =>
-      let w1 := { w with looseC := w.looseC.filter (fun c => c.id != cid),
-                         glyphs := mapGlyph w.glyphs gid fun g => { g with contours := insertAt g.contours idx c } }
-      (applyDeliv T w1 (glyphDeliv (fuelOf w1.glyphs) T w1.glyphs gid (T.postsOf "Glyph" "insertContour")), .ok)
-    | _, _ => (w, .err "unknown-object")
-  | .remContour gid cid =>
-    match glyphById w.glyphs gid with
-    | none => (w, .err "unknown-object")
-    | some g =>
-      match contourIn g cid with
-      | none => (w, .err "IndexError")
-      | some c =>
-        let gs := mapGlyph w.glyphs gid fun g => { g with contours := g.contours.filter fun c => c.id != cid }
-        let w0 : World V := { w with looseC := w.looseC ++ [c], glyphs := gs }
-        let w1 := dropCache w0 (.contour cid)
-        (applyDeliv T w1 (glyphDeliv (fuelOf w1.glyphs) T w1.glyphs gid (T.postsOf "Glyph" "removeContour")), .ok)
-  | .insComp gid kid idx =>
-    match glyphById w.glyphs gid, w.looseK.find? (fun k => k.id = kid) with
-    | some _, some k =>
-      let k1 := { k with watch := watchFor w.glyphs k.base }
-      let w1 := { w with looseK := w.looseK.filter (fun k => k.id != kid),
-                         glyphs := mapGlyph w.glyphs gid fun g => { g with comps := insertAt g.comps idx k1 } }
-      (applyDeliv T w1 (glyphDeliv (fuelOf w1.glyphs) T w1.glyphs gid (T.postsOf "Glyph" "insertComponent")), .ok)
-    | _, _ => (w, .err "unknown-object")
-  | .remComp gid kid =>
-    match glyphById w.glyphs gid with
-    | none => (w, .err "unknown-object")
-    | some g =>
-      match compIn g kid with
-      | none => (w, .err "ValueError")
-      | some k =>
-        let gs := mapGlyph w.glyphs gid fun g => { g with comps := g.comps.filter fun k => k.id != kid }
-        let w0 : World V := { w with looseK := w.looseK ++ [{ k with watch := .none }], glyphs := gs }
-        let w1 := dropCache w0 (.comp kid)
-        (applyDeliv T w1 (glyphDeliv (fuelOf w1.glyphs) T w1.glyphs gid (T.postsOf "Glyph" "removeComponent")), .ok)
-  | .newGlyph name gid =>
-    if (glyphNamed w.glyphs name).isSome || (glyphById w.glyphs gid).isSome then (w, .err "exists") else
-    let w1 := tick { w with glyphs := w.glyphs ++ [{ id := gid, name := name, attr := w.clock, contours := [], comps := [] }] }
-    -- Layer.GlyphAdded: components waiting on the layer for this name
-    (switchAndPost T w1 (fun k => k.watch = .layer && k.base = some name) (.glyph gid)
-      "layerGlyphAddedNotificationCallback", .ok)
-  | .delGlyph name =>
-    match glyphNamed w.glyphs name with
-    | none => (w, .err "KeyError")
-    | some g =>
-      -- Layer.GlyphWillBeDeleted, before anything is removed
-      let w1 := switchAndPost T w (fun k => (match k.watch with | .glyph _ => true | _ => false) && k.base = some name)
-        .layer "layerGlyphWillBeDeletedNotificationCallback"
-      -- _deleteGlyph: the glyph and everything below it stop observing (their caches are dropped)
-      let gone : List Obj := Obj.glyph g.id :: (g.contours.map (fun c => Obj.contour c.id) ++ g.comps.map (fun k => Obj.comp k.id))
-      let w2 := { w1 with glyphs := w1.glyphs.filter fun h => h.id != g.id }
-      (gone.foldl dropCache w2, .ok)
-  | .rename gid newName =>
-    match glyphById w.glyphs gid with
-    | none => (w, .err "unknown-object")
-    | some _ =>
-      if (glyphNamed w.glyphs newName).isSome then (w, .err "exists") else
-      let w1 := tick { w with glyphs := mapGlyph w.glyphs gid fun g => { g with name := newName, attr := w.clock } }
-      -- Glyph.NameChanged → Layer._glyphNameChange → Layer.GlyphNameChanged: components waiting for newName
-      let w2 := switchAndPost T w1 (fun k => k.watch = .layer && k.base = some newName) (.glyph gid)
-        "layerGlyphNameChangedNotificationCallback"
-      -- Glyph.NameChanged → components that were registered on this glyph (snapshot taken before the above)
-      let was : CompS → Bool := fun k => k.watch = .glyph gid && k.base != some newName
-      let w3 := switchAndPost T w2 was .layer "baseGlyphNameChangedNotificationCallback"
-      (applyDeliv T w3 (glyphDeliv (fuelOf w3.glyphs) T w3.glyphs gid (T.postsOf "Glyph" "_set_name")), .ok)
-  | .gset meth =>
-    let w1 := tick { w with groupsVer := w.clock }
-    (applyDeliv T w1 ((T.postsOf "Groups" meth).map fun n => (Obj.groups, n)), .ok)
+  | .cmut cid meth => doCmut T w cid meth
+  | .cmove cid dx dy => doCmove P T w cid dx dy
+  | .kmut kid meth => doKmut T w kid meth
+  | .ksetBase kid base => doKsetBase T w kid base
+  | .gmut g meth => doGmut T w g meth
+  | .insContour g cid idx => doInsContour T w g cid idx
+  | .remContour g cid => doRemContour T w g cid
+  | .insComp g kid idx => doInsComp T w g kid idx
+  | .remComp g kid => doRemComp T w g kid
+  | .newGlyph name => doNewGlyph T w name
+  | .delGlyph name => doDelGlyph T w name
+  | .rename old new => doRename T w old new
+  | .gset meth => doGset T w meth
 
 def run (P : Params V) (T : Tables) (w : World V) (ops : List Op) : World V :=
   ops.foldl (fun w op => (step P T w op).1) w
 
 /-- cached keys of every object (what `representationKeys()` would list) -/
 def digest (w : World V) : List (Obj × List (String × SubKey)) :=
-  w.caches.filterMap fun p => if p.2.keys.isEmpty then none else some (p.1, p.2.keys)
+  ((w.caches.map fun p => (p.1, p.2.keys)) ++
+   (w.glyphs.map fun p => (Obj.glyph p.1, p.2.cache.keys)) ++
+   [(Obj.groups, w.gcache.keys)]).filter fun p => !p.2.isEmpty
 
 end Step
 
